@@ -1,6 +1,6 @@
 \* emission, thorough (workers 1): documents within ThoroughEmit(family) edits
 CONSTANT MaxLevel <- ThoroughEmit
-CONSTANT Families = {"links", "comp", "stack", "pins", "core", "duct"}
+CONSTANT Families = {"links", "comp", "stack", "pins", "core", "duct", "group"}
 INVARIANT EmitState
 INIT Init
 NEXT Next
